@@ -20,7 +20,7 @@ LEVEL = "fault_enumeration"
 
 PIPES = {
     "plain": {
-        "good": "x = set([1, 2])\nassert (1, 'two')\n",
+        "good": "x = set([1, 2])\nassert (1, 'two')\ny = set([3])\nassert (2, 'three')\n",
         "queue": ["pixee:python/use-set-literal", "pixee:python/fix-assert-tuple"],
     },
     "semgrep": {
@@ -28,7 +28,7 @@ PIPES = {
         "queue": ["pixee:python/requests-verify", "pixee:python/add-requests-timeouts"],
     },
     "sast": {
-        "good": "import random\n\nrandom.random()\nvalues = set([3])\n",
+        "good": "import random\n\nrandom.random()\nvalues = set([3])\nrandom.randint(0, 9)\nother = set([4, 5])\n",
         "queue": ["sonar:python/secure-random", "pixee:python/use-set-literal"],
     },
 }
@@ -52,8 +52,13 @@ def bad_content(kind: str, good: str):
 
 
 def sonar_doc():
-    return {"issues": [{"rule": "python:S2245", "status": "OPEN", "component": f"proj:{p}", "key": f"k{i}", "message": "m",
-                        "textRange": {"startLine": 3, "endLine": 3, "startOffset": 0, "endOffset": 15}} for i, p in enumerate(FILES)]}
+    out = []
+    for i, p in enumerate(FILES):
+        out.append({"rule": "python:S2245", "status": "OPEN", "component": f"proj:{p}", "key": f"k{i}a", "message": "m",
+                    "textRange": {"startLine": 3, "endLine": 3, "startOffset": 0, "endOffset": 15}})
+        out.append({"rule": "python:S2245", "status": "OPEN", "component": f"proj:{p}", "key": f"k{i}b", "message": "m",
+                    "textRange": {"startLine": 5, "endLine": 5, "startOffset": 0, "endOffset": 20}})
+    return {"issues": out}
 
 
 def build(pipe: str, faults: list[dict], sid: str) -> dict:
@@ -69,8 +74,8 @@ def build(pipe: str, faults: list[dict], sid: str) -> dict:
             inject["vanish"] = {"c": c, "f": f}
         elif x["kind"] == "raise":
             inject["raise_in_transform"] = {"c": c, "f": f}
-        elif x["kind"] == "raiseAtNode":
-            inject["raise_at_node"] = {"c": c, "f": f, "n": 4}
+        elif x["kind"].startswith("raiseAtNode"):
+            inject["raise_at_node"] = {"c": c, "f": f, "n": {"raiseAtNodeEarly": 2, "raiseAtNodeMid": 12, "raiseAtNodeLate": 22}[x["kind"]]}
     argv = ["{dir}", "--output", "{out}", "--codemod-include", ",".join(spec["queue"])]
     res = {}
     if pipe == "sast":
